@@ -643,6 +643,90 @@ var drainProp = vp.Register(vp.Prop[DrainCase]{
 	Check: checkDrain,
 })
 
+// PairCase: writers set and delete entries that all have the same length
+// while pollers take Stats snapshots.  Every snapshot is a state the cache was
+// in: Size = Count * entry length, 0 <= Count <= number of keys (a snapshot
+// assembled from two reads taken at different moments breaks the relation).
+type PairCase struct {
+	LRU     bool `json:"lru"`
+	Keys    int  `json:"keys"`
+	Writers int  `json:"writers"`
+	Polls   int  `json:"polls"`
+	Procs   int  `json:"procs"`
+}
+
+func checkPair(c PairCase) error {
+	vp.CurrentJSON("c10.stats-pair", c)
+	prev := runtime.GOMAXPROCS(0)
+	defer runtime.GOMAXPROCS(prev)
+	if c.Procs > 0 {
+		runtime.GOMAXPROCS(c.Procs)
+	}
+	ch := cache.New(cache.Config{EnableLRU: c.LRU})
+	const entryLen = 8 // "kNN" + 5 bytes
+	var stop atomic.Bool
+	var writers, pollers sync.WaitGroup
+	for w := 0; w < c.Writers; w++ {
+		writers.Add(1)
+		go func() {
+			defer writers.Done()
+			for i := 0; !stop.Load(); i++ {
+				k := []byte(fmt.Sprintf("k%02d", (i*7+w*3)%c.Keys))
+				if (i+w)%3 == 0 {
+					ch.Del(k)
+				} else {
+					ch.Set(k, []byte("vvvvv"))
+				}
+			}
+		}()
+	}
+	var mu sync.Mutex
+	bad := ""
+	for p := 0; p < 2; p++ {
+		pollers.Add(1)
+		go func() {
+			defer pollers.Done()
+			for i := 0; i < c.Polls; i++ {
+				s := ch.Stats()
+				if s.Size != s.Count*entryLen || s.Count < 0 || s.Count > c.Keys {
+					mu.Lock()
+					if bad == "" {
+						bad = fmt.Sprintf("Stats snapshot {Count:%d Size:%d} while %d goroutines set and delete entries of %d bytes each over %d keys: the cache was never in that state", s.Count, s.Size, c.Writers, entryLen, c.Keys)
+					}
+					mu.Unlock()
+					return
+				}
+			}
+		}()
+	}
+	pollers.Wait() // the poll count is the budget of the run
+	stop.Store(true)
+	writers.Wait()
+	if bad != "" {
+		return fmt.Errorf("%s", bad)
+	}
+	vp.Class("stats-pair")
+	vp.NonTrivialStr("c10.stats-pair", fmt.Sprint(c))
+	vp.Sample("stats-pair", c)
+	return nil
+}
+
+var pairProp = vp.Register(vp.Prop[PairCase]{
+	Kind: "c10.stats-pair", Base: 40,
+	Gen: func(t *rapid.T) PairCase {
+		return PairCase{
+			LRU:     rapid.Bool().Draw(t, "lru"),
+			Keys:    rapid.SampledFrom([]int{1, 2, 16, 64}).Draw(t, "keys"),
+			Writers: rapid.IntRange(1, 3).Draw(t, "writers"),
+			Polls:   rapid.SampledFrom([]int{5000, 20000}).Draw(t, "polls") * map[bool]int{false: 1, true: 4}[vp.Thorough()],
+			Procs:   rapid.SampledFrom([]int{2, 4, 16}).Draw(t, "procs"),
+		}
+	},
+	Check: checkPair,
+})
+
+func TestStatsPair(t *testing.T) { vp.Run(t, pairProp) }
+
 func TestDrain(t *testing.T)   { vp.Run(t, drainProp) }
 func TestProgram(t *testing.T) { vp.Run(t, programProp) }
 func TestReplay(t *testing.T)  { vp.Replay(t) }
